@@ -57,9 +57,9 @@ def _pairings():
 def cases(tier):
     thorough = tier == "thorough"
     out = []
-    Z = 5_000_000 if thorough else 200_000
-    S = 2000 if thorough else 400
-    blk = 250_000 if thorough else 50_000
+    Z = 20_000_000 if thorough else 200_000
+    S = 4000 if thorough else 400
+    blk = 500_000 if thorough else 50_000
     for name in ["cantor", "rosenbergstrong", "szudzik"]:
         for lo in range(0, Z, blk):
             out.append({"sub": "range-z", "pairing": name, "lo": lo, "hi": min(Z, lo + blk)})
@@ -74,11 +74,11 @@ def cases(tier):
     for lo in range(0, HZ, hb):
         out.append({"sub": "range-z", "pairing": "hyperbolic", "lo": lo, "hi": lo + hb})
     out.append({"sub": "range-xy", "pairing": "hyperbolic", "xlo": 0, "xhi": 60 if thorough else 30, "ymax": 60 if thorough else 30})
-    Z3 = 1_000_000 if thorough else 100_000
-    b3 = 100_000 if thorough else 25_000
+    Z3 = 5_000_000 if thorough else 100_000
+    b3 = 250_000 if thorough else 25_000
     for lo in range(0, Z3, b3):
         out.append({"sub": "range-z3", "lo": lo, "hi": lo + b3})
-    S3 = 100 if thorough else 40
+    S3 = 160 if thorough else 40
     for x in range(0, S3, 5):
         out.append({"sub": "range-xyz", "xlo": x, "xhi": x + 5, "n": S3})
     # near perfect powers
@@ -109,10 +109,10 @@ def cases(tier):
     for omit in (True, False):
         out.append({"sub": "zd", "pairing": "rosenbergstrong", "dim": 3, "omit": omit, "n": 6 if thorough else 3})
     # PairingToZ1d
-    N = 7 if thorough else 5
+    N = 9 if thorough else 5
     for L in range(1, N + 1):
         for R in range(1, N + 1):
-            out.append({"sub": "z1d", "L": L, "R": R, "depth": 4 if (thorough and L + R <= 8) else 3})
+            out.append({"sub": "z1d", "L": L, "R": R, "depth": 4 if (thorough and L + R <= 10) else 3})
     # lazy product
     maxe = 4
     for length in range(1, 5):
@@ -125,13 +125,15 @@ def cases(tier):
     for L in range(1, M1 + 1):
         for R in range(1, M1 + 1):
             out.append({"sub": "states", "shape": [[L, R]]})
-    M2 = 3 if thorough else 2
+    M2 = 4 if thorough else 2
     shapes2 = list(itertools.product(range(1, M2 + 1), repeat=4))
     for a, b, c, d in shapes2:
         out.append({"sub": "states", "shape": [[a, b], [c, d]]})
-    M3 = 2
+    M3 = 3 if thorough else 2
     for sh in itertools.product(range(1, M3 + 1), repeat=6):
         if not thorough and sum(sh) > 9:
+            continue
+        if thorough and sum(sh) > 13:
             continue
         out.append({"sub": "states", "shape": [[sh[0], sh[1]], [sh[2], sh[3]], [sh[4], sh[5]]]})
     return out
